@@ -21,6 +21,12 @@ prop(
     contract_modules=["contracts.c18"],
     bcc="c18",
     level="proof",
+    claimed=True,
+    technique="contract-based deductive verification: symbolic execution of the real Python source against sidecar contracts, VCs to z3/cvc5; bounded contract check on real files as labelled stand-in for C-backed readers",
+    level_text="Cursor representation invariant and read/seek/tell/len postconditions proved for the pure-Python file classes for symbolic "
+    "N, pos, n (all finite operation sequences by induction). C/Cython-backed readers are covered only by the bounded check (all op "
+    "sequences up to length 3/4), which is labelled bounded in evidence.",
+    level_note="Trusted: the VC generator and its models of numpy slicing, PyTables/netCDF4 nodes, text-file line readers; reals/ints mathematical; Cython/C readers not proved.",
     trusted=["numpy.basic-slicing", "mdtraj.utils.in_units_of"],
     assumptions=[
         "PyTables / netCDF4 variables index like numpy arrays along the frame axis; len(node) is the number of stored frames",
